@@ -41,6 +41,15 @@ def run_generic(pid, tier, seed, asserts, which):
         ps = gen_programs(ck, m, doms, asserts)
         for p in ps:
             p["id"] += done
+        if k == 0 and which == "inv":      # fixed regression programs (minimised replays of earlier findings, with their own configurations)
+            import os
+            rd = os.path.join(vlib.ROOT, "tools", "regress")
+            for j, f in enumerate(sorted(os.listdir(rd))):
+                if f.startswith("c01_"):
+                    q = json.load(open(os.path.join(rd, f)))
+                    q = dict(q.get("case", q).get("program", q))
+                    q["id"] = 900000 + j
+                    ps.append(q)
         viols, merged, timeouts = progsound.explore(ck, "b%d" % k, ps)
         ck.cov["distinct_nontrivial"] += nontrivial(merged)
         if k == 0:
